@@ -203,6 +203,8 @@ func c17blocked(c *wk.Ctx, i int, rng *rand.Rand) {
 
 func c17one(c *wk.Ctx, i int, rng *rand.Rand) {
 	var progress int64
+	planDone := make(chan struct{})
+	defer close(planDone)
 	a, b := ctl.Pair("endpoint", "peer", &progress)
 	rrng := rand.New(rand.NewSource(rng.Int63())) // used by the endpoint's reader goroutine only
 	a.ReadChunk = func(rem int) int { return 1 + rrng.Intn(64) }
@@ -277,12 +279,21 @@ func c17one(c *wk.Ctx, i int, rng *rand.Rand) {
 			wgConsumers.Add(1)
 			go func() {
 				defer wgConsumers.Done()
-				for range ch {
-					atomic.AddInt32(&h.received, 1)
+				for {
+					select {
+					case _, ok := <-ch:
+						if ok {
+							atomic.AddInt32(&h.received, 1)
+							continue
+						}
+						atomic.AddInt32(&h.queueClosed, 1)
+						atomic.AddInt32(&h.closerCount, 1) // no closer exists: the close of the channel stands for it
+						atomic.StoreInt64(&h.closerStamp, now())
+						return
+					case <-planDone:
+						return // created after the shutdown: closed by nobody
+					}
 				}
-				atomic.AddInt32(&h.queueClosed, 1)
-				atomic.AddInt32(&h.closerCount, 1) // no closer exists: the close of the channel stands for it
-				atomic.StoreInt64(&h.closerStamp, now())
 			}()
 			return
 		}
@@ -304,10 +315,19 @@ func c17one(c *wk.Ctx, i int, rng *rand.Rand) {
 		wgConsumers.Add(1)
 		go func() {
 			defer wgConsumers.Done()
-			for range h.queue {
-				atomic.AddInt32(&h.received, 1)
+			for {
+				select {
+				case _, ok := <-h.queue:
+					if !ok {
+						atomic.AddInt32(&h.queueClosed, 1)
+						return
+					}
+					atomic.AddInt32(&h.received, 1)
+				case <-planDone:
+					// handlers registered after the shutdown are closed by nobody: their consumers end with the plan
+					return
+				}
 			}
-			atomic.AddInt32(&h.queueClosed, 1)
 		}()
 		// the monitor's table is updated atomically with the endpoint's: mu is held
 		// across MakeHandler (closers and filters never take mu, RemoveHandler callers
